@@ -14,6 +14,7 @@ public class JMon {
   static final Map<String, long[]> stats = new TreeMap<>();          // fn -> calls, values compared, errors agreed
   static final Map<String, String[]> viol = new TreeMap<>();         // key -> what, witness
   static final Map<String, Long> violCount = new TreeMap<>();
+  static long edgeCompared = 0, edgeSkipped = 0;
   static double worstRel = 0; static String worstWhere = "";
 
   static void violation(String key, String what, String witness) {
@@ -100,6 +101,12 @@ public class JMon {
           default: continue;
         }
       }
+      if (fn < 1000 && D[9] == 3.0) {           /* energy exactly on an edge: only where Java's edge is the very same double as C's */
+        boolean same = false; int nd = 0; for (int j = 0; j < fsig.get(fn).length(); j++) if (fsig.get(fn).charAt(j) == 'd') nd++;
+        try { same = nd == 1 && Double.doubleToLongBits(Xraylib.EdgeEnergy(I[0], I[5])) == Double.doubleToLongBits(D[0]); } catch (Throwable t) { same = false; }
+        if (!same) { edgeSkipped++; continue; }
+        edgeCompared++;
+      }
       long[] st = stats.computeIfAbsent(name, x -> new long[4]); st[0]++;
       double[] jv = null; Throwable ex = null;
       try { jv = call.run(); } catch (Throwable t) { ex = t; }
@@ -123,7 +130,7 @@ public class JMon {
       for (Map.Entry<String, long[]> e : stats.entrySet())
         w.println("{\"type\":\"fn\",\"fn\":" + esc(e.getKey()) + ",\"calls\":" + e.getValue()[0] + ",\"values_compared\":" + e.getValue()[1] + ",\"errors_agreed\":" + e.getValue()[2] + "}");
       for (String s : noCounterpart) w.println("{\"type\":\"nocounterpart\",\"fn\":" + esc(s) + "}");
-      w.println("{\"type\":\"summary\",\"requests\":" + n + ",\"worst_rel\":" + worstRel + ",\"worst_where\":" + esc(worstWhere) + "}");
+      w.println("{\"type\":\"summary\",\"exact_edge_compared\":" + edgeCompared + ",\"exact_edge_skipped\":" + edgeSkipped + ",\"requests\":" + n + ",\"worst_rel\":" + worstRel + ",\"worst_where\":" + esc(worstWhere) + "}");
     }
   }
 
